@@ -28,6 +28,7 @@ theorem cases_target (cs : Bool) (brk cont : String) (t : CSem.Ty) (v : Int) (b 
     split <;> simp_all
   | decl i t' init => intro c; cases init <;> simp [funcstmt, targetLabel, isCase]
   | call dst rt fn args => intro c; rcases dst with _ | ⟨i, t'⟩ <;> simp [funcstmt, targetLabel, isCase]
+  | callp dst rt fn pargs args => intro c; rcases dst with _ | ⟨i, t'⟩ <;> simp [funcstmt, targetLabel, isCase]
   | _ => intro c; simp [funcstmt, targetLabel, isCase]
 
 theorem dflt_target (cs : Bool) (brk cont : String) (b : Stmt) :
@@ -43,6 +44,7 @@ theorem dflt_target (cs : Bool) (brk cont : String) (b : Stmt) :
   | default_ => intro c; simp [funcstmt, targetLabel, isDefault]
   | decl i t' init => intro c; cases init <;> simp [funcstmt, targetLabel, isDefault]
   | call dst rt fn args => intro c; rcases dst with _ | ⟨i, t'⟩ <;> simp [funcstmt, targetLabel, isDefault]
+  | callp dst rt fn pargs args => intro c; rcases dst with _ | ⟨i, t'⟩ <;> simp [funcstmt, targetLabel, isDefault]
   | _ => intro c; simp [funcstmt, targetLabel, isDefault]
 
 theorem cases_vals (cs : Bool) (brk cont : String) (b : Stmt) :
@@ -52,6 +54,7 @@ theorem cases_vals (cs : Bool) (brk cont : String) (b : Stmt) :
   | case_ u => intro c; rfl
   | decl i t' init => intro c; cases init <;> simp [funcstmt, caseVals]
   | call dst rt fn args => intro c; rcases dst with _ | ⟨i, t'⟩ <;> simp [funcstmt, caseVals]
+  | callp dst rt fn pargs args => intro c; rcases dst with _ | ⟨i, t'⟩ <;> simp [funcstmt, caseVals]
   | _ => intro c; simp [funcstmt, caseVals]
 
 /-- every registered label is the label of an item without phi -/
@@ -99,6 +102,12 @@ theorem cases_items (cs : Bool) (brk cont : String) (b : Stmt) :
       · simp [funcstmt] at hu
       · simp [funcstmt] at hd
   | call dst rt fn args =>
+    intro c l h
+    rcases dst with _ | ⟨i, t'⟩ <;>
+    · rcases h with ⟨u', hu⟩ | hd
+      · simp [funcstmt] at hu
+      · simp [funcstmt] at hd
+  | callp dst rt fn pargs args =>
     intro c l h
     rcases dst with _ | ⟨i, t'⟩ <;>
     · rcases h with ⟨u', hu⟩ | hd
@@ -279,12 +288,12 @@ variable (T : Stat) {s : Store} {out : CSem2.Outcome} {lp : Bool × Bool} {brk c
   {nd nd' : Nat} {pre post : List Item} {env : Env} {M : Mem}
 
 theorem sim_switch (n : Nat) (hc : CallOK T n) (ih : ∀ m, m ≤ n → SimStmt T m) (e : Expr3) (b : Stmt)
-    (hex : exec T.S.cs T.P (n + 1) s (.switch_ e b) = some out) (hfr : frag T.P T.cnts (.switch_ e b) = true)
+    (hex : exec T.S.cs T.P (n + 1) s (.switch_ e b) = some out) (hfr : frag T.P T.cnts T.W (.switch_ e b) = true)
     (hwt : Stmt.wt T.vtys T.ret lp.1 lp.2 nd (.switch_ e b) = some nd') (hp : Pos T c nd pre)
     (hext : Ext T (funcstmt T.S.cs brk cont (.switch_ e b) c).ctx)
     (hits : T.S.its = pre ++ (funcstmt T.S.cs brk cont (.switch_ e b) c).items ++ post)
     (hlp : (lp.1 = true → CanJump T.S brk) ∧ (lp.2 = true → CanJump T.S cont))
-    (inv : SInv T.M0 T.S.cs T.cnts T.σ T.vtys s env M) :
+    (inv : SInv T.M0 T.S.cs T.cnts T.W T.σ T.vtys s env M) :
     Post T lp brk cont (T.at env M pre) (pre ++ (funcstmt T.S.cs brk cont (.switch_ e b) c).items)
       (funcstmt T.S.cs brk cont (.switch_ e b) c).ctx out := by
   simp only [frag, Bool.and_eq_true] at hfr
@@ -466,12 +475,12 @@ theorem sim_switch (n : Nat) (hc : CallOK T n) (ih : ∀ m, m ≤ n → SimStmt 
         exact hpob.le k hkn
       · right
         exact hext.2 k (by show ob.ctx.slots.length ≤ k; rw [hpob.nslots]; omega) hk
-    have inv3 : SInv T.M0 T.S.cs T.cnts T.σ T.vtys (CSem2.clear s (declIdx b)) env3 M := (inv1.env henv3).clear _
+    have inv3 : SInv T.M0 T.S.cs T.cnts T.W T.σ T.vtys (CSem2.clear s (declIdx b)) env3 M := (inv1.env henv3).clear _
     have hreachL := (hreach1.trans (Reach.one hs2)).trans hreach3
     -- arriving at `switch_join`
     have hjoin : ∀ (s' : Store) (env' : Env) (M' : Mem) (st : State) (k : Nat),
         T.Reach k (T.at env M pre) st → AtLabel T.S (lblName "switch_join" (c.blockid + 2)) env' M' st →
-        SInv T.M0 T.S.cs T.cnts T.σ T.vtys s' env' M' →
+        SInv T.M0 T.S.cs T.cnts T.W T.σ T.vtys s' env' M' →
         Post T lp brk cont (T.at env M pre)
           (pre ++ (oe.items ++ ob.items ++ [.lbl (some (ob.ctx.jump.getD
             (.jmp (lblName "switch_join" (c.blockid + 2))))) (lblName "switch_cond" (c.blockid + 1)) []] ++
